@@ -45,45 +45,42 @@ GORACE = "halt_on_error=1 exitcode=66"
 # inlining, loop forms do not change the sets; reads are not effects.
 
 EXPECT_EFFECTS = {
+    # Abstract locations are named by type / role, never by the name of an unexported identifier:
+    # recv:Circuit.<atomic.Pointer[sync.Pool]> = the field of Circuit of that type, POOL = what it points to,
+    # SCRATCH = POOL.Get(), SCRATCH.<[]ot.Wire> = the scratch's field of that type, *scratch-struct = the struct
+    # the handle's unexported pointer field points to; exported fields keep their names.
     # Garble: creates/looks up the pool with Load + CompareAndSwap of a locally built object, takes one
     # scratch, writes only the three buffers of that scratch, may Put it back; nothing of the circuit itself
     "Circuit.Garble": [
         "extcall POOL.Get",
         "extcall POOL.Put(SCRATCH)",
-        "extcall recv:Circuit.garblePool.CompareAndSwap(fresh)",
-        "extcall recv:Circuit.garblePool.Load",
-        "write SCRATCH.gates[*]",
-        "write SCRATCH.slab[*]",
-        "write SCRATCH.wires[*]",
+        "extcall recv:Circuit.<atomic.Pointer[sync.Pool]>.CompareAndSwap(fresh)",
+        "extcall recv:Circuit.<atomic.Pointer[sync.Pool]>.Load",
+        "write SCRATCH.<[][]ot.Label>[*]",
+        "write SCRATCH.<[]ot.Label>[*]",
+        "write SCRATCH.<[]ot.Wire>[*]",
     ],
     # Eval writes only its wire-label argument; Compute nothing it does not own
     "Circuit.Eval": ["write param#1([]ot.Label)[*]"],
     "Circuit.Compute": [],
     # Release: one Put of its own scratch into its own pool, clears the four fields of the handle
     "Garbled.Release": [
-        "extcall recv:Garbled.pool.Put(recv:Garbled.scratch)",
+        "extcall recv:Garbled.<*sync.Pool>.Put(recv:Garbled.<*scratch-struct>)",
+        "write recv:Garbled.<*scratch-struct>",
+        "write recv:Garbled.<*sync.Pool>",
         "write recv:Garbled.Gates",
         "write recv:Garbled.Wires",
-        "write recv:Garbled.pool",
-        "write recv:Garbled.scratch",
     ],
 }
 
-# textual renderings: ADVISORY only (their semantic content is decided by the effect sets above, the trace
-# correspondence and the stress oracle)
-ADVISE_RELEASE = {"receiver": "*Garbled", "statements": [
-    "if g == nil || g.pool == nil { return }",
-    "g.pool.Put(g.scratch)",
-    "g.scratch = nil",
-    "g.pool = nil",
-    "g.Wires = nil",
-    "g.Gates = nil",
-]}
+# renderings of statement order: ADVISORY only (their semantic content is decided by the effect sets above,
+# the trace correspondence and the stress oracle)
 ADVISE_RELEASE_SHAPE = {
-    "cleared_after_put": ["Garbled.Gates", "Garbled.Wires", "Garbled.pool", "Garbled.scratch"],
-    "guard_returns_when": ["Garbled == nil", "Garbled.pool == nil"],
-    "put": "Garbled.pool.Put(Garbled.scratch)", "put_before_clears": True, "puts": 1}
-ADVISE_HANDLE = ["Gates=SCRATCH.gates", "R=own", "Wires=SCRATCH.wires", "pool=POOL", "scratch=SCRATCH"]
+    "cleared_after_put": ["Garbled.<*scratch-struct>", "Garbled.<*sync.Pool>", "Garbled.Gates", "Garbled.Wires"],
+    "guard_returns_when": ["Garbled == nil", "Garbled.<*sync.Pool> == nil"],
+    "put": "Garbled.<*sync.Pool>.Put(Garbled.<*scratch-struct>)", "put_before_clears": True, "puts": 1}
+ADVISE_HANDLE = ["<*scratch-struct>=SCRATCH", "<*sync.Pool>=POOL", "Gates=SCRATCH.<[][]ot.Label>", "R=own",
+                 "Wires=SCRATCH.<[]ot.Wire>"]
 
 
 def norm(x):
@@ -114,11 +111,13 @@ def check_facts(ctx, facts):
     else:
         # the path analysis cannot decide this shape of the code: not an alarm, widen the search
         ctx.advise("Garble: Put count per return path decidable by the path analysis", pp.get("undecided"), [])
-    ctx.fact("operations applied to Circuit.garblePool anywhere in package circuit; its declared type",
+    ctx.fact("operations applied anywhere in package circuit to the pool field of Circuit (located by type); "
+             "its declared type",
              (facts.get("garblePool_ops"), facts.get("garblePool_type")),
              (["CompareAndSwap", "Load"], "atomic.Pointer[sync.Pool]"))
     ctx.fact("pool New builds every scratch from allocations made inside New (nothing captured/shared)",
-             facts.get("new_scratch"), ["gates=make@inside-New", "slab=make@inside-New", "wires=make@inside-New"])
+             facts.get("new_scratch"),
+             ["<[][]ot.Label>=make@inside-New", "<[]ot.Label>=make@inside-New", "<[]ot.Wire>=make@inside-New"])
     # --- advisory (textual) facts
     ctx.advise("Garble: the handle literal binds Wires/Gates/scratch to the scratch it holds and pool to the pool "
                "(decided by the trace correspondence: scratch/pool identity read from every handle)",
@@ -126,16 +125,6 @@ def check_facts(ctx, facts):
     ctx.advise("Release: guard / Put / clear order (decided by the effect set of Release and the Release, "
                "second-Release and nil-Release operations of the stress oracle)",
                facts.get("release_shape"), ADVISE_RELEASE_SHAPE)
-    ctx.advise("Release: statement text", facts.get("Release_statements"), ADVISE_RELEASE)
-    pt = facts.get("garbleScratchPool_text", {})
-    ctx.advise("garbleScratchPool: order of atomic operations and returned values (decided by the pool-uniqueness "
-               "oracle and first-use rounds)",
-               (pt.get("atomic_ops"), pt.get("returns")),
-               (["Load()", "CompareAndSwap(nil, p)", "Load()"], ["return p", "return p", "return c.garblePool.Load()"]))
-    ctx.advise("Garbled / garbledScratch field lists (what Garble stores in a scratch is decided by its effect set)",
-               (facts.get("Garbled_fields"), facts.get("garbledScratch_fields")),
-               (["R ot.Label", "Wires []ot.Wire", "Gates [][]ot.Label", "scratch *garbledScratch", "pool *sync.Pool"],
-                ["wires []ot.Wire", "slab []ot.Label", "gates [][]ot.Label"]))
 
 
 def distinct_traces(ctx, ops):
@@ -177,6 +166,14 @@ def stress(ctx, n, seed, binary=None, race=False, tag=""):
                               "replay": "GORACE='%s' <c17 built with -race> stress -seed %d -n %d  "
                                         "(schedule dependent; round in progress: %s)" % (GORACE, seed, n, prog)})
             m.pop("harness_rc", None)
+    ob = m.get("observe")
+    if ob is not None and not getattr(ctx, "_c17_observe_done", False):
+        ctx._c17_observe_done = True
+        ctx.coverage["pool_observability"] = ob
+        ctx.oblige("harness can observe the pool: Circuit has exactly one field of type atomic.Pointer[sync.Pool] "
+                   "(or *sync.Pool), Garbled exactly one *sync.Pool field and one unexported pointer to a circuit "
+                   "struct (fields located by type; without them no pool-event trace and no pool-uniqueness oracle)",
+                   bool(ob.get("ok")), str(ob))
     ctx.absorb_meta(m, prefix="race_" if race else "")
     if rc == 0:
         ctx.coverage["completed_" + ("race" if race else "plain") + "_runs"] = \
